@@ -68,6 +68,27 @@ func RunOne(scn *Scenario, tier string, seed uint64, c *Choices, logOn bool) *Re
 			scn.Run(env)
 		}()
 	}
+	if env.failed == nil && env.panicked == nil && !env.overrun && env.deadlock == "" && leak == "" {
+		func() {
+			defer func() {
+				if r := recover(); r != nil {
+					switch x := r.(type) {
+					case *Violation:
+						env.failed = x
+					case *HarnessError:
+						env.panicked = &taskPanic{val: x}
+					default:
+						pcs := make([]uintptr, 64)
+						n := runtime.Callers(0, pcs)
+						env.panicked = &taskPanic{x, pcs[:n]}
+					}
+				}
+			}()
+			for _, f := range env.finally {
+				f()
+			}
+		}()
+	}
 	for i := len(env.cleanup) - 1; i >= 0; i-- {
 		env.cleanup[i]()
 	}
